@@ -8,6 +8,9 @@ Extracted:
                   the name parse.  cJSON 1.7.13 as vendored has no such guard and reads one byte past
                   `length` for a text that ends right after a ',' inside an object; the model takes the
                   flag so that it follows the tree as it is (the correspondence decides whether it does).
+  printNumberExact  whether print_number keeps the "%1.15g" candidate only when it scans back to the IDENTICAL double
+                  (memcmp of the two doubles; repaired code, F65) rather than to one within compare_double's
+                  relative epsilon (cJSON 1.7.13 as vendored: 0.30000000000000004 was printed as 0.3)
 Raises when a pattern no longer matches (reported as a broken tie)."""
 import os
 import re
@@ -61,8 +64,25 @@ def values(repo):
     return limit, nbuf, guard
 
 
+def print_number_exact(repo):
+    c = _strip_comments(open(os.path.join(repo, "src", "json", "cJSON.c")).read())
+    pn = _function_body(c, r"static\s+cJSON_bool\s+print_number\s*\([^)]*\)\s*\{")
+    if not re.search(r'"%1\.15g"', pn) or not re.search(r'"%1\.17g"', pn):
+        raise ValueError("cJSON.c: print_number no longer tries %1.15g then %1.17g")
+    m = re.search(r"if\s*\(\s*\(\s*sscanf\s*\([^;{]*?\)\s*!=\s*1\s*\)\s*\|\|(.*?)\)\s*\{", pn, re.S)
+    if not m:
+        raise ValueError("cJSON.c: print_number's acceptance test of the 15-digit candidate not found")
+    cond = m.group(1)
+    if "compare_double" in cond:
+        return False
+    if re.search(r"memcmp\s*\(\s*&test\s*,\s*&d\s*,", cond) or re.search(r"test\s*!=\s*d\b", cond):
+        return True
+    raise ValueError("cJSON.c: print_number's acceptance test is neither compare_double nor an exact comparison: %r" % cond)
+
+
 def lean(repo):
     limit, nbuf, guard = values(repo)
+    exact = print_number_exact(repo)
     return "\n".join([
         "",
         "namespace Cjet.Generated.Cjson",
@@ -73,6 +93,8 @@ def lean(repo):
         "def numberBufSize : Nat := %d" % nbuf,
         "/-- parse_object checks `cannot_access_at_index(input_buffer, 1)` before it steps over the separator -/",
         "def objCommaGuard : Bool := %s" % ("true" if guard else "false"),
+        "/-- print_number accepts the 15-digit candidate only when it scans back to the identical double -/",
+        "def printNumberExact : Bool := %s" % ("true" if exact else "false"),
         "",
         "end Cjet.Generated.Cjson",
         "",
